@@ -38,10 +38,16 @@ def class_source(t):
 
     classes = sort_classes([xt.build(t)])
     source, _ = _concatenate_sources(sources_from_classes(classes))
-    return source
+    # the accessor source is specialised in one call with, and after, lines restricted to other contexts (as the headers of
+    # a real build are): on every target one of the two lines is dropped
+    return CTX_LINES + source
+
+
+CTX_LINES = "typedef int c15_ctx_marker_cpu; //only_for_context cpu_serial cpu_openmp\ntypedef int c15_ctx_marker_gpu; //only_for_context opencl cuda\n"
 
 
 def tokens(text):
+    text = "\n".join(l for l in text.split("\n") if "c15_ctx_marker" not in l)  # (the restricted lines differ between targets by design)
     return [x for x in TOK.findall(text) if x not in QUAL]
 
 
